@@ -35,11 +35,7 @@ type mutantResult struct {
 }
 
 // seeded changes that the checks are known not to detect, with the reason (DESIGN.md section 8)
-var seedExpectedMissed = map[string]string{
-	"C10_l": "the third route to the same numerical clause (a percentile() helper with a zero-based fractional index whose `int(pos) < 0` guard is dead because Go truncates toward zero): wrong only for buckets with exactly two samples; arithmetic of a processor function, not decided",
-	"C10_k": "the same numerical clause as C10_d, reached through a refactoring (percentile() helper that clamps the integer rank instead of testing rank < 1): wrong only for buckets with exactly two samples; arithmetic of a processor function, not decided",
-	"C10_d": "changes the interpolation arithmetic of the percentile processor for ranks below 1 (only with exactly two samples): the numerical result of a processor function is not a property of the code's shape; C10 declares the arithmetic of the ten functions not decided",
-}
+var seedExpectedMissed = map[string]string{}
 
 func applyReplace(content []byte, old, new string) ([]byte, bool) {
 	s := string(content)
